@@ -714,3 +714,31 @@ def check_initial_stack(ctx, fb, prog, rule="R03.6"):
     ctx.inst(not bad_count, rule, "initial-stack-excludes-annex-control-script", cf.loc(), "the number of items pushed is the size of the witness stack after removing annex, control block and script",
              "with script version %s and annex present = %s the session is given %s witness items: the annex (or control block / script) is pushed as an argument - a key-path spend with an annex then checks the annex as the signature" %
              (bad_count[0] if bad_count else ("", "", "")))
+
+
+def check_scripts_validated(ctx, fb, prog, rule="R03.6"):
+    """Every script a session is going to execute has passed the well-formedness test (CScript::HasValidOps, directly or through
+    parse_script) before set-up accepts: the listing, the marker and the two-column display all decode the scripts with GetOp and
+    stop silently at an undecodable tail."""
+    cf, ok, npaths = setup_outcomes(fb, prog)
+    ctx.site(len(ok))
+    bad = []
+    for o in ok:
+        sv = sigver_of(o)
+        validated = [t for (t, v) in o.conds if v and isinstance(t, tuple) and t[0] == "ap" and t[1] in ("m:HasValidOps", "m:parse_script")]
+        if sv == 0:
+            # legacy: both the scriptSig and the scriptPubKey are executed
+            need = {"scriptSig", "scriptPubKey"}
+            have = set()
+            for t in validated:
+                for nm in need:
+                    if has_sub(t, lambda y, nm=nm: is_field(y, nm)):
+                        have.add(nm)
+            if need - have:
+                bad.append((sv, sorted(need - have)))
+        elif not validated:
+            bad.append((sv, ["the witness script"]))
+    ctx.inst(not bad, rule, "scripts-validated-before-the-session", cf.loc(),
+             "on all %d accepting paths the scripts to be executed passed HasValidOps" % len(ok),
+             "set-up accepts (script version %s) without testing %s with HasValidOps: a truncated push in a legacy scriptSig is dropped from the listing, the marker points at the next section "
+             "and every step fails on bytes that are not shown" % ((bad[0][0], " and ".join(bad[0][1])) if bad else ("", "")))
